@@ -81,16 +81,28 @@ fn growth_scenario(name: &str, x: usize, max_r: usize) -> Scenario {
 	s.cfg.cols[0].preimage = true;
 	let a = s.alphabet.clone();
 	s.alphabet = vec![a[0].clone(), a[3].clone()];
-	s.stages = vec![St::P, St::F, St::E, St::R]; // log cleanup is left to the end of the execution (drop)
 	s.check_iter_rc = false; // value iteration at intermediate states: known finding F-C07-iter-lag, judged by the other scenarios
 	let a2 = s.alphabet.clone();
-	s.filter = Some(std::sync::Arc::new(move |hist: &[Ev], ev: &Ev| match ev {
-		Ev::Stage(St::R) => hist.iter().filter(|e| matches!(e, Ev::Stage(St::R))).count() < max_r,
-		Ev::Commit(tx) => {
-			let k = hist.iter().filter(|e| matches!(e, Ev::Commit(_))).count();
-			a2.get(k).map_or(false, |t| format!("{:?}", t) == format!("{:?}", tx))
-		},
-		_ => true,
+	// every record is driven through the pipeline in order (P, F, E); reindex batches, cleanup and the second commit
+	// may come after any enact step
+	s.filter = Some(std::sync::Arc::new(move |hist: &[Ev], ev: &Ev| {
+		let rs = hist.iter().filter(|e| matches!(e, Ev::Stage(St::R))).count();
+		let k = hist.iter().filter(|e| matches!(e, Ev::Commit(_))).count();
+		let es = hist.iter().rev().take_while(|e| matches!(e, Ev::Stage(St::E))).count();
+		let next_commit = |tx: &Tx| a2.get(k).map_or(false, |t| format!("{:?}", t) == format!("{:?}", tx));
+		match (hist.last(), ev) {
+			(None, Ev::Commit(tx)) => next_commit(tx),
+			(Some(Ev::Commit(_)), Ev::Stage(St::P)) => true,
+			(Some(Ev::Stage(St::P)), Ev::Stage(St::F)) => true,
+			(Some(Ev::Stage(St::R)), Ev::Stage(St::F)) => true,
+			(Some(Ev::Stage(St::F)), Ev::Stage(St::E)) => true,
+			(Some(Ev::Stage(St::E)), Ev::Stage(St::E)) => es < 2,
+			(Some(Ev::Stage(St::E)) | Some(Ev::Stage(St::K)), Ev::Stage(St::R)) => rs < max_r,
+			(Some(Ev::Stage(St::E)), Ev::Stage(St::K)) => true,
+			(Some(Ev::Stage(St::E)) | Some(Ev::Stage(St::K)) | Some(Ev::Reopen), Ev::Commit(tx)) => next_commit(tx),
+			(Some(Ev::Stage(St::K)), Ev::Reopen) => true,
+			_ => false,
+		}
 	}));
 	s
 }
@@ -103,7 +115,8 @@ pub fn scenarios(tier: &str) -> Vec<Scenario> {
 			scenario("rc-btree/n3-full", true, 2, 3, 1),
 			scenario("rc-hash/n2-x2", false, 2, 2, 2),
 			chain_scenario("rc-hash-collision-chain/n4", 4, 1),
-			growth_scenario("rc-hash/index-growth-twice/n2-in-order", 1, 6),
+			growth_scenario("rc-hash/index-growth-twice/n2-in-order", 1, 8),
+			crate::props::c14::growth_queued_on(true),
 		]
 	} else {
 		vec![
@@ -112,7 +125,8 @@ pub fn scenarios(tier: &str) -> Vec<Scenario> {
 			scenario("rc-btree/n3", true, 0, 3, 1),
 			scenario("rc-btree/n2-full", true, 2, 2, 1),
 			chain_scenario("rc-hash-collision-chain/n3", 3, 1),
-			growth_scenario("rc-hash/index-growth-twice/n2-in-order", 0, 3),
+			growth_scenario("rc-hash/index-growth-twice/n2-in-order", 1, 6),
+			crate::props::c14::growth_queued_on(true),
 		]
 	}
 }
